@@ -23,7 +23,9 @@ def tilejson_object_stage(run, tier, hb, d):
                              "count": len(fls), "first": {k: fls[0].get(k) for k in ("case", "op", "err", "differs", "observed")}})
     # binding self-test: four corrupted records must be rejected
     recs = C.read_ndjson(t)
-    ops = [i for i, r in enumerate(recs) if r["ev"] == "Op" and r["doc"]["layers"] and r["doc"]["bounds"] and any(p[0] == "maxzoom" for p in r["doc"]["vals"])][:4]
+    ops = [i for i, r in enumerate(recs) if r["ev"] == "Op" and r["doc"]["layers"] and r["doc"]["bounds"] and any(p[0] == "maxzoom" and p[1] == "b" for p in r["doc"]["vals"])][:4]
+    if len(ops) < 4:
+        run.observation("tilejson_selftest_skipped", {"what": "fewer than 4 recorded steps with layers, bounds and a byte maxzoom", "found": len(ops)})
     if len(ops) == 4:
         def mut(i, f):
             r = json.loads(json.dumps(recs[i]))
@@ -104,7 +106,13 @@ def run(tier, seed, replay):
                     run.failure({"clause": cl, "kind": "tilesjson", "fmt": fl["q"]["src"].get("fmt", ""), "case": fl})
         run.evaluations += len(seen)
         run.extra_served = len(seen)
-    tjobj = tilejson_object_stage(run, tier, hb, d) if not replay else None
+    tjobj = None
+    if not replay:
+        try:                                     # beyond the property: whatever happens in this stage is an observation
+            tjobj = tilejson_object_stage(run, tier, hb, d)
+        except Exception as e:                   # noqa: BLE001
+            run.observation("tilejson_stage_error", {"what": str(e)[:300]})
+            tjobj = {"error": str(e)[:300]}
     special = {34, 92, 0, 8, 10, 12, 31, 127, 133, 8232, 65535, 128512}
     nt = [c for c in case_list if c["k"] == "tilejson" or (c["value"]["t"] == "s" and special & set(c["value"]["v"])) or c["value"]["t"] in ("a", "o")]
     run.nontrivial = len(nt)
